@@ -597,6 +597,28 @@ FIXED_WORLDS = [
     ('delegates', '($.handler)(1)', {'handler': None}, NOMATCH),
     ('delegates', 'let(f => 5) -> $f(1)', None, NOMATCH),
     ('delegates', "let(f => 'len') -> $f([1])", None, NOMATCH),
+    # collections of function values: a variable that holds a function is a value like any other until it is called
+    ('delegates', 'let(f => lambda($ + 1)) -> [$f, $f].select($).len()', None, 2),
+    ('delegates', 'let(f => lambda($ + 1)) -> [5, 6].select($f).len()', None, 2),
+    ('delegates', 'let(f => lambda($ + 1)) -> [$f].select($).select($(1))', None, [2]),
+    ('delegates', 'let(f => lambda($ + 1)) -> [5, 6].select($f).select($(1))', None, [2, 2]),
+    ('delegates', 'let(f => lambda($ + 1)) -> [$f].where($).len()', None, 1),
+    ('delegates', 'let(f => lambda($ + 1), g => lambda($ * 3)) -> [$f, $g].select($(2))', None, [3, 6]),
+    ('delegates', 'let(f => lambda($ + 1)) -> [$f, $f].takeWhile($).len()', None, 2),
+    ('delegates', 'let(f => lambda($ + 1)) -> [1, 2].aggregate($f, 0)(5)', None, 6),
+    ('delegates', 'let(f => lambda($ + 1)) -> coalesce(null, $f)(1)', None, 2),
+    ('delegates', 'let(f => lambda($ + 1)) -> ({a => $f}.a)(1)', None, 2),
+    # names with a trailing underscore (the spelling of names that are reserved words in the host language)
+    ('python', 'def(from_, $ + 1) -> from_(1)', None, 2),
+    ('python', 'def(f_, 1) -> def(f_, 2) -> f_()', None, 2),
+    ('python', 'def(inc_, $ + 1) -> call(inc_, [41], {})', None, 42),
+    ('python', 'def(my_fn, $ * 2) -> my_fn(4)', None, 8),
+    ('python', 'def(my_fn_, $ * 2) -> [1, 2].select(my_fn_($))', None, [2, 4]),
+    ('python', 'let(from_ => 3) -> $from_', None, 3),
+    ('python', 'def(f, $from_ + 1) -> f(from_ => 1)', None, 2),
+    ('default', 'def(from_, $ + 1) -> from_(1)', None, 2),
+    ('default', 'def(f_, 1) -> def(f_, 2) -> f_()', None, 2),
+    ('default', 'def(inc_, $ + 1) -> call(inc_, [41], {})', None, 42),
     ('legacy', '[1, 2].as(sum($) => a) -> $', 77, 77),                 # as() binds names, `$` stays the outer one
     ('legacy', '[1, 2].as(sum($) => a) -> $a', 77, 3),
     ('legacy', '$.as(len($) => n) -> $n', [1, 2, 3], 3),
@@ -691,7 +713,10 @@ def run_shard(spec, rec):
                 else:
                     rec.count('agree.error')
             from yaql import legacy as ylegacy
+            from yaql.language import conventions as yconv
             worlds = {'delegates': [(yq.engine(allow_delegates=True), yaql.create_context(delegates=True))],
+                      'python': [(yq.engine(), yaql.create_context(convention=yconv.PythonConvention()))],
+                      'default': [(yq.engine(), yaql.create_context())],
                       'legacy': [(ylegacy.YaqlFactory().create(), ylegacy.create_context()), (yq.engine(), ylegacy.create_context())]}
             for world, text, doc, want in FIXED_WORLDS:
                 for eng, base in worlds[world]:
